@@ -177,6 +177,29 @@ theorem ofCheck_denied {H : Hier} (hd : NoDangling H) {ctx : Option Name} {t : N
         have := (inHierarchy_spec hd hb).mpr hr
         cases this
 
+/-- `canAccessMember` decides PHP's rule on (scope class, declaring class) whenever its walks terminate -/
+theorem lexRule_spec {H : Hier} (hd : NoDangling H) {m : Mod} {scope : Option Name} {decl : Name} {b : Bool}
+    (h : lexRule H m scope decl = some b) : b = true ↔ allowed H m scope decl := by
+  cases m with
+  | pub =>
+    simp only [lexRule, Option.some.injEq] at h
+    subst h
+    simp [allowed]
+  | priv =>
+    simp only [lexRule, Option.some.injEq] at h
+    subst h
+    simp [allowed]
+  | prot =>
+    cases scope with
+    | none =>
+      simp only [lexRule, inHierarchy, Option.some.injEq] at h
+      subst h
+      simp [allowed]
+    | some c =>
+      simp only [lexRule] at h
+      rw [inHierarchy_spec hd h]
+      simp [allowed]
+
 theorem ofCheck_cases (o : Option Bool) :
     Out.ofCheck o = .allowed ∨ Out.ofCheck o = .denied ∨ Out.ofCheck o = .stuck := by
   cases o with
